@@ -51,6 +51,7 @@ def check(ck: Checker) -> None:
     _check_local(ck)
     _check_exists(ck)
     _check_verify(ck, "C07.verify")
+    check_fetch_verify(ck, "C07.verify")
     _check_checkout(ck)
 
 
@@ -325,6 +326,19 @@ def _check_verify(ck: Checker, rule: str) -> None:
                 if "oid_to_path" in t or is_marker(alt, ITEM):
                     okp = True
         ck.require(okp, rule, fn, n, "protects the store path of the added oid", f"protect target {norm(arg) if arg is not None else '?'} is not derived from the added oids", construct=f"{n.text()} / target")
+    # the pre-copy clean-up loop (verify on: drop corrupt leftovers so that they get re-added) is per object too
+    for m in g.nodes.values():
+        if not m.loops or not any(is_method_call(c2, "check") and norm(c2.func.value) == "self" for c2 in calls_at(m)):
+            continue
+        if avoiding_path(g, m.id, lambda x: x.id == cp.id) is None:
+            continue  # post-copy checks were handled above
+        head = g.nodes[m.loops[-1]]
+        outs = [d for lab, d in m.succ if lab == "exc"]
+        inside = all(head.id in g.nodes[d].loops for d in outs)
+        ck.require(bool(outs) and inside, rule, fn, m,
+                   "a corrupt / missing leftover found by the pre-copy check does not stop the check of the remaining objects",
+                   "the first corrupt or missing object ends the pre-copy check of the whole batch: later stale leftovers are not dropped, get skipped by the exists-filter, are deleted by the post-copy check and are never re-added",
+                   construct=f"{m.text()} / pre-copy per-object handler")
     for h in [x for x in g.nodes.values() if x.kind == "handler"]:
         ts = handler_types(h.ast)
         ck.require(set(ts) <= ALLOWED_SWALLOW, rule, fn, h, f"swallows only {sorted(ts)}", f"add() swallows {ts}")
@@ -369,3 +383,24 @@ def _check_checkout(ck: Checker) -> None:
                "a source object missing at link time raises CheckoutError naming the destination",
                "a missing source object at link time is not converted into CheckoutError([to_path])",
                construct="except FileNotFoundError -> CheckoutError")
+
+
+
+def check_fetch_verify(ck: Checker, rule: str) -> None:
+    """index.fetch: objects downloaded from a remote are verified according to the *remote's* verify
+    setting - the transfer is told so explicitly with verify=<source odb>.verify."""
+    prog = ck.prog
+    fn = prog.func("index.fetch", "fetch")
+    tr = prog.func("hashfile.transfer", "transfer")
+    n = 0
+    for c, cals in ck.res.calls_in(fn):
+        if not any(x.fq == tr.fq for x in cals):
+            continue
+        n += 1
+        src = get_arg(c, tr, "src", pos=0)
+        ver = get_arg(c, tr, "verify")
+        ok = src is not None and ver is not None and norm(ver) == f"{norm(src)}.verify"
+        ck.require(ok, rule, fn, c, "fetch verifies downloads according to the source (remote) store's verify flag",
+                   f"fetch calls transfer({norm(src) if src is not None else '?'}, ...) with verify={norm(ver) if ver is not None else 'omitted'}: whether downloaded objects are re-hashed no longer follows the remote's verify setting, so a corrupt remote object is copied into the cache, write-protected and trusted",
+                   construct="transfer(... verify=<src>.verify) in fetch")
+    ck.floor(rule, n, 1, "transfer() calls in index.fetch.fetch")
